@@ -297,7 +297,13 @@ Inductive op :=
 | Save (a : addr)              (* _sync + save_transaction_io_batch *)
 | SetHist (a : addr)           (* set_address_history *)
 | Gap (a : addr)               (* ensure_address_gap of a's chain, lock released *)
-| GapChain (c : N).            (* ensure_address_gap called outside a sync (subscribe_account) *)
+| GapChain (c : N)             (* ensure_address_gap called outside a sync (subscribe_account) *)
+| Restart.                     (* the wallet process stops (every running update dies, locks are gone, the database
+                                  keeps what was committed) and starts again: subscribe_accounts ensures the gap of
+                                  every chain; the re-subscription's updates follow as ordinary Begin steps *)
+
+Definition restart (s : state) : state :=
+  fold_left ensure_gap (map fst (gaps s)) (set_pend s []).
 
 Definition step (s : state) (o : op) : option state :=
   match o with
@@ -329,6 +335,7 @@ Definition step (s : state) (o : op) : option state :=
       | _, _ => None
       end
   | GapChain c => Some (ensure_gap s c)
+  | Restart => Some (restart s)
   end.
 
 Fixpoint run (s : state) (ops : list op) : option state :=
